@@ -29,7 +29,12 @@ type C15Case struct {
 	Jitter []int     `json:"jitter_us,omitempty"`
 }
 
+const c15PNG = "data:image/png;base64,iVBORw0KGgoAAAANSUhEUgAAAAEAAAABCAYAAAAfFcSJAAAADUlEQVR42mP8z8BQDwAEhQGAhKmMIQAAAABJRU5ErkJggg=="
+
 var c15Extra = []string{
+	// raster images: the backend identifies them by a number derived from their URL
+	`<img src="` + c15PNG + `" style="width:10px;height:10px"><img src="` + c15PNG + `" style="width:5px;height:5px">`,
+	`<div style="width:20px;height:20px;background:url(` + c15PNG + `)"></div>`,
 	// one family name bound by @font-face to different font files in different documents; lengths in ex / ch
 	// depend on which file the name stands for in the document at hand
 	`<style>@font-face{font-family:shared;src:url(verif-font:AHEM____.TTF)}</style><p style="font:20px shared;width:10ex;height:3ch;background:red">Aex</p>`,
